@@ -223,23 +223,30 @@ impl Parser for Markdown {
                     }
                 }
                 pulldown_cmark::Event::Text(text) => {
-                    let chunk_len = text.chars().count();
+                    // The event text can be longer than the source it stands for (a tab that
+                    // pulldown-cmark expands to spaces): never reach past the event's own range.
+                    let range_len = source_str[range.clone()].chars().count();
+                    let chunk_len = text.chars().count().min(range_len);
 
                     if let Some(tag) = stack.last() {
                         use pulldown_cmark::Tag;
 
                         if matches!(tag, Tag::CodeBlock(..)) {
-                            tokens.push(Token {
-                                span: Span::new_with_len(traversed_chars, text.chars().count()),
-                                kind: TokenKind::Unlintable,
-                            });
+                            if chunk_len > 0 {
+                                tokens.push(Token {
+                                    span: Span::new_with_len(traversed_chars, chunk_len),
+                                    kind: TokenKind::Unlintable,
+                                });
+                            }
                             continue;
                         }
                         if matches!(tag, Tag::Link { .. }) && self.options.ignore_link_title {
-                            tokens.push(Token {
-                                span: Span::new_with_len(traversed_chars, text.chars().count()),
-                                kind: TokenKind::Unlintable,
-                            });
+                            if chunk_len > 0 {
+                                tokens.push(Token {
+                                    span: Span::new_with_len(traversed_chars, chunk_len),
+                                    kind: TokenKind::Unlintable,
+                                });
+                            }
                             continue;
                         }
                         if !(matches!(tag, Tag::Paragraph)
